@@ -28,99 +28,99 @@ import (
 )
 
 const (
-	tyBase = iota
-	tyNamed
-	tyList
-	tySet
-	tyMap
+	a18TyBase = iota
+	a18TyNamed
+	a18TyList
+	a18TySet
+	a18TyMap
 )
 
-type gTy struct {
+type a18GTy struct {
 	kind int
 	name string
-	k, v *gTy
+	k, v *a18GTy
 }
 
-type gField struct {
+type a18GField struct {
 	id   int
 	mod  byte // 'r','o','d'
 	name string
-	ty   *gTy
+	ty   *a18GTy
 	dflt string // "-" = none
 }
 
-type gStruct struct {
+type a18GStruct struct {
 	kind   byte // 's','u','x'
 	name   string
-	fields []*gField
+	fields []*a18GField
 }
 
-type gEV struct {
+type a18GEV struct {
 	name string
 	num  int
 }
 
-type gEnum struct {
+type a18GEnum struct {
 	name string
-	vals []gEV
+	vals []a18GEV
 }
 
-type gTypedef struct {
+type a18GTypedef struct {
 	name string
-	ty   *gTy
+	ty   *a18GTy
 }
 
-type gMethod struct {
+type a18GMethod struct {
 	name   string
 	oneway bool
-	ret    *gTy // nil = void
-	args   []*gField
-	excs   []*gField
+	ret    *a18GTy // nil = void
+	args   []*a18GField
+	excs   []*a18GField
 }
 
-type gService struct {
+type a18GService struct {
 	name, ext string
-	methods   []*gMethod
+	methods   []*a18GMethod
 }
 
-type gPTok struct {
+type a18GPTok struct {
 	isVar bool
 	s     string
 }
 
-type gOp struct {
+type a18GOp struct {
 	name string
-	ty   *gTy
+	ty   *a18GTy
 }
 
-type gScope struct {
+type a18GScope struct {
 	name   string
-	prefix []gPTok
-	ops    []*gOp
+	prefix []a18GPTok
+	ops    []*a18GOp
 }
 
-type gNS struct{ scope, value string }
+type a18GNS struct{ scope, value string }
 
-type gConst struct {
+type a18GConst struct {
 	name  string
-	ty    *gTy
+	ty    *a18GTy
 	value string
 }
 
-type gProg struct {
-	typedefs []*gTypedef
-	enums    []*gEnum
-	structs  []*gStruct
-	services []*gService
-	scopes   []*gScope
-	nss      []*gNS
-	consts   []*gConst
+type a18GProg struct {
+	typedefs []*a18GTypedef
+	enums    []*a18GEnum
+	structs  []*a18GStruct
+	services []*a18GService
+	scopes   []*a18GScope
+	nss      []*a18GNS
+	consts   []*a18GConst
 }
 
-var baseNames = []string{"bool", "byte", "i16", "i32", "i64", "double", "string", "binary"}
+var a18BaseNames = []string{"bool", "byte", "i16", "i32", "i64", "double", "string", "binary"}
 
-func isBaseName(s string) bool {
-	for _, b := range baseNames {
+func a18IsBaseName(s string) bool {
+	for _, b := range a18BaseNames {
 		if b == s {
 			return true
 		}
@@ -130,14 +130,14 @@ func isBaseName(s string) bool {
 
 // ---------- copies ----------
 
-func (t *gTy) clone() *gTy {
+func (t *a18GTy) clone() *a18GTy {
 	if t == nil {
 		return nil
 	}
-	return &gTy{t.kind, t.name, t.k.clone(), t.v.clone()}
+	return &a18GTy{t.kind, t.name, t.k.clone(), t.v.clone()}
 }
-func cloneFields(fs []*gField) []*gField {
-	out := make([]*gField, len(fs))
+func a18CloneFields(fs []*a18GField) []*a18GField {
+	out := make([]*a18GField, len(fs))
 	for i, f := range fs {
 		c := *f
 		c.ty = f.ty.clone()
@@ -145,28 +145,28 @@ func cloneFields(fs []*gField) []*gField {
 	}
 	return out
 }
-func (p *gProg) clone() *gProg {
-	q := &gProg{}
+func (p *a18GProg) clone() *a18GProg {
+	q := &a18GProg{}
 	for _, t := range p.typedefs {
-		q.typedefs = append(q.typedefs, &gTypedef{t.name, t.ty.clone()})
+		q.typedefs = append(q.typedefs, &a18GTypedef{t.name, t.ty.clone()})
 	}
 	for _, e := range p.enums {
-		q.enums = append(q.enums, &gEnum{e.name, append([]gEV{}, e.vals...)})
+		q.enums = append(q.enums, &a18GEnum{e.name, append([]a18GEV{}, e.vals...)})
 	}
 	for _, s := range p.structs {
-		q.structs = append(q.structs, &gStruct{s.kind, s.name, cloneFields(s.fields)})
+		q.structs = append(q.structs, &a18GStruct{s.kind, s.name, a18CloneFields(s.fields)})
 	}
 	for _, s := range p.services {
-		n := &gService{name: s.name, ext: s.ext}
+		n := &a18GService{name: s.name, ext: s.ext}
 		for _, m := range s.methods {
-			n.methods = append(n.methods, &gMethod{m.name, m.oneway, m.ret.clone(), cloneFields(m.args), cloneFields(m.excs)})
+			n.methods = append(n.methods, &a18GMethod{m.name, m.oneway, m.ret.clone(), a18CloneFields(m.args), a18CloneFields(m.excs)})
 		}
 		q.services = append(q.services, n)
 	}
 	for _, s := range p.scopes {
-		n := &gScope{name: s.name, prefix: append([]gPTok{}, s.prefix...)}
+		n := &a18GScope{name: s.name, prefix: append([]a18GPTok{}, s.prefix...)}
 		for _, o := range s.ops {
-			n.ops = append(n.ops, &gOp{o.name, o.ty.clone()})
+			n.ops = append(n.ops, &a18GOp{o.name, o.ty.clone()})
 		}
 		q.scopes = append(q.scopes, n)
 	}
@@ -175,26 +175,26 @@ func (p *gProg) clone() *gProg {
 		q.nss = append(q.nss, &c)
 	}
 	for _, c := range p.consts {
-		q.consts = append(q.consts, &gConst{c.name, c.ty.clone(), c.value})
+		q.consts = append(q.consts, &a18GConst{c.name, c.ty.clone(), c.value})
 	}
 	return q
 }
 
 // ---------- IDL text ----------
 
-func (t *gTy) idl() string {
+func (t *a18GTy) idl() string {
 	switch t.kind {
-	case tyList:
+	case a18TyList:
 		return "list<" + t.v.idl() + ">"
-	case tySet:
+	case a18TySet:
 		return "set<" + t.v.idl() + ">"
-	case tyMap:
+	case a18TyMap:
 		return "map<" + t.k.idl() + ", " + t.v.idl() + ">"
 	}
 	return t.name
 }
 
-func idlFields(fs []*gField, sep string) string {
+func a18IdlFields(fs []*a18GField, sep string) string {
 	var b strings.Builder
 	for _, f := range fs {
 		b.WriteString(sep)
@@ -208,14 +208,14 @@ func idlFields(fs []*gField, sep string) string {
 		}
 		b.WriteString(f.ty.idl() + " " + f.name)
 		if f.dflt != "-" && f.dflt != "" {
-			b.WriteString(" = " + idlValue(f.dflt))
+			b.WriteString(" = " + a18IdlValue(f.dflt))
 		}
 		b.WriteString(",")
 	}
 	return b.String()
 }
 
-func (p *gProg) idl() string {
+func (p *a18GProg) idl() string {
 	var b strings.Builder
 	for _, n := range p.nss {
 		fmt.Fprintf(&b, "namespace %s %s\n", n.scope, n.value)
@@ -224,7 +224,7 @@ func (p *gProg) idl() string {
 		fmt.Fprintf(&b, "typedef %s %s\n", t.ty.idl(), t.name)
 	}
 	for _, c := range p.consts {
-		fmt.Fprintf(&b, "const %s %s = %s\n", c.ty.idl(), c.name, idlValue(c.value))
+		fmt.Fprintf(&b, "const %s %s = %s\n", c.ty.idl(), c.name, a18IdlValue(c.value))
 	}
 	for _, e := range p.enums {
 		fmt.Fprintf(&b, "enum %s {\n", e.name)
@@ -235,7 +235,7 @@ func (p *gProg) idl() string {
 	}
 	for _, s := range p.structs {
 		kw := map[byte]string{'s': "struct", 'u': "union", 'x': "exception"}[s.kind]
-		fmt.Fprintf(&b, "%s %s {%s\n}\n", kw, s.name, idlFields(s.fields, "\n  "))
+		fmt.Fprintf(&b, "%s %s {%s\n}\n", kw, s.name, a18IdlFields(s.fields, "\n  "))
 	}
 	for _, s := range p.services {
 		ext := ""
@@ -253,9 +253,9 @@ func (p *gProg) idl() string {
 			} else {
 				b.WriteString(m.ret.idl())
 			}
-			fmt.Fprintf(&b, " %s(%s)", m.name, idlFields(m.args, " "))
+			fmt.Fprintf(&b, " %s(%s)", m.name, a18IdlFields(m.args, " "))
 			if len(m.excs) > 0 {
-				fmt.Fprintf(&b, " throws (%s)", idlFields(m.excs, " "))
+				fmt.Fprintf(&b, " throws (%s)", a18IdlFields(m.excs, " "))
 			}
 			b.WriteString(",\n")
 		}
@@ -285,46 +285,46 @@ func (p *gProg) idl() string {
 
 // ---------- token format ----------
 
-func (t *gTy) tok() string {
+func (t *a18GTy) tok() string {
 	switch t.kind {
-	case tyList:
+	case a18TyList:
 		return "(l," + t.v.tok() + ")"
-	case tySet:
+	case a18TySet:
 		return "(s," + t.v.tok() + ")"
-	case tyMap:
+	case a18TyMap:
 		return "(m," + t.k.tok() + "," + t.v.tok() + ")"
 	}
 	return t.name
 }
 
-func lst(items []string) string { return "(" + strings.Join(items, ",") + ")" }
+func a18Lst(items []string) string { return "(" + strings.Join(items, ",") + ")" }
 
-func tokFields(fs []*gField) string {
+func a18TokFields(fs []*a18GField) string {
 	items := make([]string, len(fs))
 	for i, f := range fs {
 		d := f.dflt
 		if d == "" {
 			d = "-"
 		}
-		items[i] = lst([]string{strconv.Itoa(f.id), string(f.mod), f.name, f.ty.tok(), d})
+		items[i] = a18Lst([]string{strconv.Itoa(f.id), string(f.mod), f.name, f.ty.tok(), d})
 	}
-	return lst(items)
+	return a18Lst(items)
 }
 
-func (p *gProg) tok() string {
+func (p *a18GProg) tok() string {
 	var tds, ens, sts, svs, scs, nss, cs []string
 	for _, t := range p.typedefs {
-		tds = append(tds, lst([]string{t.name, t.ty.tok()}))
+		tds = append(tds, a18Lst([]string{t.name, t.ty.tok()}))
 	}
 	for _, e := range p.enums {
 		var vs []string
 		for _, v := range e.vals {
-			vs = append(vs, lst([]string{v.name, strconv.Itoa(v.num)}))
+			vs = append(vs, a18Lst([]string{v.name, strconv.Itoa(v.num)}))
 		}
-		ens = append(ens, lst([]string{e.name, lst(vs)}))
+		ens = append(ens, a18Lst([]string{e.name, a18Lst(vs)}))
 	}
 	for _, s := range p.structs {
-		sts = append(sts, lst([]string{string(s.kind), s.name, tokFields(s.fields)}))
+		sts = append(sts, a18Lst([]string{string(s.kind), s.name, a18TokFields(s.fields)}))
 	}
 	for _, s := range p.services {
 		var ms []string
@@ -336,13 +336,13 @@ func (p *gProg) tok() string {
 			if m.ret != nil {
 				ret = m.ret.tok()
 			}
-			ms = append(ms, lst([]string{m.name, ow, ret, tokFields(m.args), tokFields(m.excs)}))
+			ms = append(ms, a18Lst([]string{m.name, ow, ret, a18TokFields(m.args), a18TokFields(m.excs)}))
 		}
 		ext := "()"
 		if s.ext != "" {
 			ext = s.ext
 		}
-		svs = append(svs, lst([]string{s.name, ext, lst(ms)}))
+		svs = append(svs, a18Lst([]string{s.name, ext, a18Lst(ms)}))
 	}
 	for _, s := range p.scopes {
 		var pt, ops []string
@@ -351,39 +351,39 @@ func (p *gProg) tok() string {
 			if t.isVar {
 				k = "v"
 			}
-			pt = append(pt, lst([]string{k, t.s}))
+			pt = append(pt, a18Lst([]string{k, t.s}))
 		}
 		for _, o := range s.ops {
-			ops = append(ops, lst([]string{o.name, o.ty.tok()}))
+			ops = append(ops, a18Lst([]string{o.name, o.ty.tok()}))
 		}
-		scs = append(scs, lst([]string{s.name, lst(pt), lst(ops)}))
+		scs = append(scs, a18Lst([]string{s.name, a18Lst(pt), a18Lst(ops)}))
 	}
 	for _, n := range p.nss {
-		nss = append(nss, lst([]string{n.scope, n.value}))
+		nss = append(nss, a18Lst([]string{n.scope, n.value}))
 	}
 	for _, c := range p.consts {
-		cs = append(cs, lst([]string{c.name, c.ty.tok(), c.value}))
+		cs = append(cs, a18Lst([]string{c.name, c.ty.tok(), c.value}))
 	}
-	return lst([]string{lst(tds), lst(ens), lst(sts), lst(svs), lst(scs), lst(nss), lst(cs)})
+	return a18Lst([]string{a18Lst(tds), a18Lst(ens), a18Lst(sts), a18Lst(svs), a18Lst(scs), a18Lst(nss), a18Lst(cs)})
 }
 
 // generic s-expression
-type sx struct {
+type a18Sx struct {
 	atom string
-	kids []*sx
+	kids []*a18Sx
 	list bool
 }
 
-func parseSx(s string) (*sx, error) {
+func a18ParseSx(s string) (*a18Sx, error) {
 	pos := 0
-	var rec func() (*sx, error)
-	rec = func() (*sx, error) {
+	var rec func() (*a18Sx, error)
+	rec = func() (*a18Sx, error) {
 		if pos >= len(s) {
 			return nil, fmt.Errorf("eof")
 		}
 		if s[pos] == '(' {
 			pos++
-			n := &sx{list: true}
+			n := &a18Sx{list: true}
 			if pos < len(s) && s[pos] == ')' {
 				pos++
 				return n, nil
@@ -412,7 +412,7 @@ func parseSx(s string) (*sx, error) {
 		for pos < len(s) && s[pos] != '(' && s[pos] != ')' && s[pos] != ',' {
 			pos++
 		}
-		return &sx{atom: s[st:pos]}, nil
+		return &a18Sx{atom: s[st:pos]}, nil
 	}
 	n, err := rec()
 	if err != nil {
@@ -424,157 +424,157 @@ func parseSx(s string) (*sx, error) {
 	return n, nil
 }
 
-type sxErr string
+type a18SxErr string
 
-func need(c bool, what string) {
+func a18Need(c bool, what string) {
 	if !c {
-		panic(sxErr(what))
+		panic(a18SxErr(what))
 	}
 }
 
-func tyOfSx(n *sx) *gTy {
+func a18TyOfSx(n *a18Sx) *a18GTy {
 	if !n.list {
-		if isBaseName(n.atom) {
-			return &gTy{kind: tyBase, name: n.atom}
+		if a18IsBaseName(n.atom) {
+			return &a18GTy{kind: a18TyBase, name: n.atom}
 		}
-		return &gTy{kind: tyNamed, name: n.atom}
+		return &a18GTy{kind: a18TyNamed, name: n.atom}
 	}
-	need(len(n.kids) >= 2 && !n.kids[0].list, "ty")
+	a18Need(len(n.kids) >= 2 && !n.kids[0].list, "ty")
 	switch n.kids[0].atom {
 	case "l":
-		need(len(n.kids) == 2, "list")
-		return &gTy{kind: tyList, name: "list", v: tyOfSx(n.kids[1])}
+		a18Need(len(n.kids) == 2, "list")
+		return &a18GTy{kind: a18TyList, name: "list", v: a18TyOfSx(n.kids[1])}
 	case "s":
-		need(len(n.kids) == 2, "set")
-		return &gTy{kind: tySet, name: "set", v: tyOfSx(n.kids[1])}
+		a18Need(len(n.kids) == 2, "set")
+		return &a18GTy{kind: a18TySet, name: "set", v: a18TyOfSx(n.kids[1])}
 	case "m":
-		need(len(n.kids) == 3, "map")
-		return &gTy{kind: tyMap, name: "map", k: tyOfSx(n.kids[1]), v: tyOfSx(n.kids[2])}
+		a18Need(len(n.kids) == 3, "map")
+		return &a18GTy{kind: a18TyMap, name: "map", k: a18TyOfSx(n.kids[1]), v: a18TyOfSx(n.kids[2])}
 	}
-	panic(sxErr("ty head"))
+	panic(a18SxErr("ty head"))
 }
 
-func fieldsOfSx(n *sx) []*gField {
-	need(n.list, "fields")
-	var out []*gField
+func a18FieldsOfSx(n *a18Sx) []*a18GField {
+	a18Need(n.list, "fields")
+	var out []*a18GField
 	for _, k := range n.kids {
-		need(k.list && len(k.kids) == 5, "field")
+		a18Need(k.list && len(k.kids) == 5, "field")
 		id, err := strconv.Atoi(k.kids[0].atom)
-		need(err == nil && len(k.kids[1].atom) == 1, "field id/mod")
-		out = append(out, &gField{id, k.kids[1].atom[0], k.kids[2].atom, tyOfSx(k.kids[3]), k.kids[4].atom})
+		a18Need(err == nil && len(k.kids[1].atom) == 1, "field id/mod")
+		out = append(out, &a18GField{id, k.kids[1].atom[0], k.kids[2].atom, a18TyOfSx(k.kids[3]), k.kids[4].atom})
 	}
 	return out
 }
 
-func progOfTok(s string) (p *gProg, err error) {
+func a18ProgOfTok(s string) (p *a18GProg, err error) {
 	defer func() {
 		if r := recover(); r != nil {
-			if e, ok := r.(sxErr); ok {
+			if e, ok := r.(a18SxErr); ok {
 				p, err = nil, fmt.Errorf("bad token: %s", string(e))
 				return
 			}
 			panic(r)
 		}
 	}()
-	n, err := parseSx(s)
+	n, err := a18ParseSx(s)
 	if err != nil {
 		return nil, err
 	}
-	need(n.list && len(n.kids) == 7, "prog")
+	a18Need(n.list && len(n.kids) == 7, "prog")
 	for _, k := range n.kids {
-		need(k.list, "section")
+		a18Need(k.list, "section")
 	}
-	p = &gProg{}
+	p = &a18GProg{}
 	for _, k := range n.kids[0].kids {
-		need(k.list && len(k.kids) == 2, "typedef")
-		p.typedefs = append(p.typedefs, &gTypedef{k.kids[0].atom, tyOfSx(k.kids[1])})
+		a18Need(k.list && len(k.kids) == 2, "typedef")
+		p.typedefs = append(p.typedefs, &a18GTypedef{k.kids[0].atom, a18TyOfSx(k.kids[1])})
 	}
 	for _, k := range n.kids[1].kids {
-		need(k.list && len(k.kids) == 2 && k.kids[1].list, "enum")
-		e := &gEnum{name: k.kids[0].atom}
+		a18Need(k.list && len(k.kids) == 2 && k.kids[1].list, "enum")
+		e := &a18GEnum{name: k.kids[0].atom}
 		for _, v := range k.kids[1].kids {
-			need(v.list && len(v.kids) == 2, "enum value")
+			a18Need(v.list && len(v.kids) == 2, "enum value")
 			num, err := strconv.Atoi(v.kids[1].atom)
-			need(err == nil, "enum num")
-			e.vals = append(e.vals, gEV{v.kids[0].atom, num})
+			a18Need(err == nil, "enum num")
+			e.vals = append(e.vals, a18GEV{v.kids[0].atom, num})
 		}
 		p.enums = append(p.enums, e)
 	}
 	for _, k := range n.kids[2].kids {
-		need(k.list && len(k.kids) == 3 && len(k.kids[0].atom) == 1, "struct")
-		p.structs = append(p.structs, &gStruct{k.kids[0].atom[0], k.kids[1].atom, fieldsOfSx(k.kids[2])})
+		a18Need(k.list && len(k.kids) == 3 && len(k.kids[0].atom) == 1, "struct")
+		p.structs = append(p.structs, &a18GStruct{k.kids[0].atom[0], k.kids[1].atom, a18FieldsOfSx(k.kids[2])})
 	}
 	for _, k := range n.kids[3].kids {
-		need(k.list && len(k.kids) == 3 && k.kids[2].list, "service")
-		s := &gService{name: k.kids[0].atom}
+		a18Need(k.list && len(k.kids) == 3 && k.kids[2].list, "service")
+		s := &a18GService{name: k.kids[0].atom}
 		if !k.kids[1].list {
 			s.ext = k.kids[1].atom
 		}
 		for _, m := range k.kids[2].kids {
-			need(m.list && len(m.kids) == 5, "method")
-			gm := &gMethod{name: m.kids[0].atom, oneway: m.kids[1].atom == "1"}
+			a18Need(m.list && len(m.kids) == 5, "method")
+			gm := &a18GMethod{name: m.kids[0].atom, oneway: m.kids[1].atom == "1"}
 			if !(m.kids[2].list && len(m.kids[2].kids) == 0) {
-				gm.ret = tyOfSx(m.kids[2])
+				gm.ret = a18TyOfSx(m.kids[2])
 			}
-			gm.args, gm.excs = fieldsOfSx(m.kids[3]), fieldsOfSx(m.kids[4])
+			gm.args, gm.excs = a18FieldsOfSx(m.kids[3]), a18FieldsOfSx(m.kids[4])
 			s.methods = append(s.methods, gm)
 		}
 		p.services = append(p.services, s)
 	}
 	for _, k := range n.kids[4].kids {
-		need(k.list && len(k.kids) == 3 && k.kids[1].list && k.kids[2].list, "scope")
-		s := &gScope{name: k.kids[0].atom}
+		a18Need(k.list && len(k.kids) == 3 && k.kids[1].list && k.kids[2].list, "scope")
+		s := &a18GScope{name: k.kids[0].atom}
 		for _, t := range k.kids[1].kids {
-			need(t.list && len(t.kids) == 2, "ptok")
-			s.prefix = append(s.prefix, gPTok{t.kids[0].atom == "v", t.kids[1].atom})
+			a18Need(t.list && len(t.kids) == 2, "ptok")
+			s.prefix = append(s.prefix, a18GPTok{t.kids[0].atom == "v", t.kids[1].atom})
 		}
 		for _, o := range k.kids[2].kids {
-			need(o.list && len(o.kids) == 2, "op")
-			s.ops = append(s.ops, &gOp{o.kids[0].atom, tyOfSx(o.kids[1])})
+			a18Need(o.list && len(o.kids) == 2, "op")
+			s.ops = append(s.ops, &a18GOp{o.kids[0].atom, a18TyOfSx(o.kids[1])})
 		}
 		p.scopes = append(p.scopes, s)
 	}
 	for _, k := range n.kids[5].kids {
-		need(k.list && len(k.kids) == 2, "ns")
-		p.nss = append(p.nss, &gNS{k.kids[0].atom, k.kids[1].atom})
+		a18Need(k.list && len(k.kids) == 2, "ns")
+		p.nss = append(p.nss, &a18GNS{k.kids[0].atom, k.kids[1].atom})
 	}
 	for _, k := range n.kids[6].kids {
-		need(k.list && len(k.kids) == 3, "const")
-		p.consts = append(p.consts, &gConst{k.kids[0].atom, tyOfSx(k.kids[1]), k.kids[2].atom})
+		a18Need(k.list && len(k.kids) == 3, "const")
+		p.consts = append(p.consts, &a18GConst{k.kids[0].atom, a18TyOfSx(k.kids[1]), k.kids[2].atom})
 	}
 	return p, nil
 }
 
 // ---------- from the real parser's AST ----------
 
-func tyOfReal(t *parser.Type) *gTy {
+func a18TyOfReal(t *parser.Type) *a18GTy {
 	if t == nil {
 		return nil
 	}
 	switch t.Name {
 	case "list":
 		if t.ValueType != nil {
-			return &gTy{kind: tyList, name: "list", v: tyOfReal(t.ValueType)}
+			return &a18GTy{kind: a18TyList, name: "list", v: a18TyOfReal(t.ValueType)}
 		}
 	case "set":
 		if t.ValueType != nil {
-			return &gTy{kind: tySet, name: "set", v: tyOfReal(t.ValueType)}
+			return &a18GTy{kind: a18TySet, name: "set", v: a18TyOfReal(t.ValueType)}
 		}
 	case "map":
 		if t.ValueType != nil && t.KeyType != nil {
-			return &gTy{kind: tyMap, name: "map", k: tyOfReal(t.KeyType), v: tyOfReal(t.ValueType)}
+			return &a18GTy{kind: a18TyMap, name: "map", k: a18TyOfReal(t.KeyType), v: a18TyOfReal(t.ValueType)}
 		}
 	}
-	if isBaseName(t.Name) {
-		return &gTy{kind: tyBase, name: t.Name}
+	if a18IsBaseName(t.Name) {
+		return &a18GTy{kind: a18TyBase, name: t.Name}
 	}
-	return &gTy{kind: tyNamed, name: t.Name}
+	return &a18GTy{kind: a18TyNamed, name: t.Name}
 }
 
-// valueTok: canonical token of a parsed constant/default value (IDL literal for ints,
+// a18ValueTok: canonical token of a parsed constant/default value (IDL literal for ints,
 // otherwise a hex rendering of its Go syntax; two values are DeepEqual iff the tokens are equal
 // for the literal kinds the generator uses: integers and strings).
-func valueTok(v interface{}) string {
+func a18ValueTok(v interface{}) string {
 	switch x := v.(type) {
 	case nil:
 		return "-"
@@ -586,8 +586,8 @@ func valueTok(v interface{}) string {
 	return "x" + hex.EncodeToString([]byte(fmt.Sprintf("%#v", v)))
 }
 
-// idlValue renders a value token back to an IDL literal (integers and hex-quoted strings).
-func idlValue(tok string) string {
+// a18IdlValue renders a value token back to an IDL literal (integers and hex-quoted strings).
+func a18IdlValue(tok string) string {
 	if len(tok) >= 2 && tok[0] == '"' && tok[len(tok)-1] == '"' {
 		b, err := hex.DecodeString(tok[1 : len(tok)-1])
 		if err == nil {
@@ -597,10 +597,10 @@ func idlValue(tok string) string {
 	return tok
 }
 
-func strTok(s string) string { return "\"" + hex.EncodeToString([]byte(s)) + "\"" }
+func a18StrTok(s string) string { return "\"" + hex.EncodeToString([]byte(s)) + "\"" }
 
-func fieldsOfReal(fs []*parser.Field) []*gField {
-	var out []*gField
+func a18FieldsOfReal(fs []*parser.Field) []*a18GField {
+	var out []*a18GField
 	for _, f := range fs {
 		mod := byte('d')
 		switch f.Modifier {
@@ -609,72 +609,72 @@ func fieldsOfReal(fs []*parser.Field) []*gField {
 		case parser.Optional:
 			mod = 'o'
 		}
-		out = append(out, &gField{f.ID, mod, f.Name, tyOfReal(f.Type), valueTok(f.Default)})
+		out = append(out, &a18GField{f.ID, mod, f.Name, a18TyOfReal(f.Type), a18ValueTok(f.Default)})
 	}
 	return out
 }
 
-func prefixOfReal(s string) []gPTok {
+func a18PrefixOfReal(s string) []a18GPTok {
 	if s == "" {
 		return nil
 	}
-	var out []gPTok
+	var out []a18GPTok
 	for _, piece := range strings.Split(s, ".") {
 		if strings.HasPrefix(piece, "{") && strings.HasSuffix(piece, "}") && len(piece) >= 2 {
-			out = append(out, gPTok{true, piece[1 : len(piece)-1]})
+			out = append(out, a18GPTok{true, piece[1 : len(piece)-1]})
 		} else {
-			out = append(out, gPTok{false, piece})
+			out = append(out, a18GPTok{false, piece})
 		}
 	}
 	return out
 }
 
-func progOfReal(f *parser.Frugal) *gProg {
-	p := &gProg{}
+func a18ProgOfReal(f *parser.Frugal) *a18GProg {
+	p := &a18GProg{}
 	for _, t := range f.Typedefs {
-		p.typedefs = append(p.typedefs, &gTypedef{t.Name, tyOfReal(t.Type)})
+		p.typedefs = append(p.typedefs, &a18GTypedef{t.Name, a18TyOfReal(t.Type)})
 	}
 	for _, e := range f.Enums {
-		g := &gEnum{name: e.Name}
+		g := &a18GEnum{name: e.Name}
 		for _, v := range e.Values {
-			g.vals = append(g.vals, gEV{v.Name, v.Value})
+			g.vals = append(g.vals, a18GEV{v.Name, v.Value})
 		}
 		p.enums = append(p.enums, g)
 	}
 	add := func(kind byte, ss []*parser.Struct) {
 		for _, s := range ss {
-			p.structs = append(p.structs, &gStruct{kind, s.Name, fieldsOfReal(s.Fields)})
+			p.structs = append(p.structs, &a18GStruct{kind, s.Name, a18FieldsOfReal(s.Fields)})
 		}
 	}
 	add('s', f.Structs)
 	add('x', f.Exceptions)
 	add('u', f.Unions)
 	for _, s := range f.Services {
-		g := &gService{name: s.Name, ext: s.Extends}
+		g := &a18GService{name: s.Name, ext: s.Extends}
 		for _, m := range s.Methods {
-			g.methods = append(g.methods, &gMethod{m.Name, m.Oneway, tyOfReal(m.ReturnType), fieldsOfReal(m.Arguments), fieldsOfReal(m.Exceptions)})
+			g.methods = append(g.methods, &a18GMethod{m.Name, m.Oneway, a18TyOfReal(m.ReturnType), a18FieldsOfReal(m.Arguments), a18FieldsOfReal(m.Exceptions)})
 		}
 		p.services = append(p.services, g)
 	}
 	for _, s := range f.Scopes {
-		g := &gScope{name: s.Name, prefix: prefixOfReal(s.Prefix.String)}
+		g := &a18GScope{name: s.Name, prefix: a18PrefixOfReal(s.Prefix.String)}
 		for _, o := range s.Operations {
-			g.ops = append(g.ops, &gOp{o.Name, tyOfReal(o.Type)})
+			g.ops = append(g.ops, &a18GOp{o.Name, a18TyOfReal(o.Type)})
 		}
 		p.scopes = append(p.scopes, g)
 	}
 	for _, n := range f.Namespaces {
-		p.nss = append(p.nss, &gNS{n.Scope, n.Value})
+		p.nss = append(p.nss, &a18GNS{n.Scope, n.Value})
 	}
 	for _, c := range f.Constants {
-		p.consts = append(p.consts, &gConst{c.Name, tyOfReal(c.Type), valueTok(c.Value)})
+		p.consts = append(p.consts, &a18GConst{c.Name, a18TyOfReal(c.Type), a18ValueTok(c.Value)})
 	}
 	return p
 }
 
-// ---------- generator-side type resolution (what the harness knows about its own edits) ----------
+// ---------- generator-side type resolution (what the harness knows about its own a18Edits) ----------
 
-func (p *gProg) typedef(name string) *gTypedef {
+func (p *a18GProg) typedef(name string) *a18GTypedef {
 	for _, t := range p.typedefs {
 		if t.name == name {
 			return t
@@ -684,19 +684,19 @@ func (p *gProg) typedef(name string) *gTypedef {
 }
 
 // canon: the type with every typedef expanded (generated typedefs are acyclic by construction).
-func (p *gProg) canon(t *gTy) string { return p.canonD(t, 0) }
-func (p *gProg) canonD(t *gTy, d int) string {
+func (p *a18GProg) canon(t *a18GTy) string { return p.canonD(t, 0) }
+func (p *a18GProg) canonD(t *a18GTy, d int) string {
 	if d > 64 {
 		return "<cycle>"
 	}
 	switch t.kind {
-	case tyList:
+	case a18TyList:
 		return "list<" + p.canonD(t.v, d+1) + ">"
-	case tySet:
+	case a18TySet:
 		return "set<" + p.canonD(t.v, d+1) + ">"
-	case tyMap:
+	case a18TyMap:
 		return "map<" + p.canonD(t.k, d+1) + "," + p.canonD(t.v, d+1) + ">"
-	case tyNamed:
+	case a18TyNamed:
 		if td := p.typedef(t.name); td != nil {
 			return p.canonD(td.ty, d+1)
 		}
@@ -705,16 +705,16 @@ func (p *gProg) canonD(t *gTy, d int) string {
 }
 
 // reaches: does t mention typedef `name`, directly or through other typedefs?
-func (p *gProg) reaches(t *gTy, name string, d int) bool {
+func (p *a18GProg) reaches(t *a18GTy, name string, d int) bool {
 	if t == nil || d > 64 {
 		return false
 	}
 	switch t.kind {
-	case tyList, tySet:
+	case a18TyList, a18TySet:
 		return p.reaches(t.v, name, d+1)
-	case tyMap:
+	case a18TyMap:
 		return p.reaches(t.k, name, d+1) || p.reaches(t.v, name, d+1)
-	case tyNamed:
+	case a18TyNamed:
 		if t.name == name {
 			return true
 		}
@@ -725,46 +725,46 @@ func (p *gProg) reaches(t *gTy, name string, d int) bool {
 	return false
 }
 
-func (t *gTy) mentions(name string) bool {
+func (t *a18GTy) mentions(name string) bool {
 	if t == nil {
 		return false
 	}
 	switch t.kind {
-	case tyList, tySet:
+	case a18TyList, a18TySet:
 		return t.v.mentions(name)
-	case tyMap:
+	case a18TyMap:
 		return t.k.mentions(name) || t.v.mentions(name)
-	case tyNamed:
+	case a18TyNamed:
 		return t.name == name
 	}
 	return false
 }
 
-func (t *gTy) rename(from, to string) {
+func (t *a18GTy) rename(from, to string) {
 	if t == nil {
 		return
 	}
 	switch t.kind {
-	case tyList, tySet:
+	case a18TyList, a18TySet:
 		t.v.rename(from, to)
-	case tyMap:
+	case a18TyMap:
 		t.k.rename(from, to)
 		t.v.rename(from, to)
-	case tyNamed:
+	case a18TyNamed:
 		if t.name == from {
 			t.name = to
 		}
 	}
 }
 
-func (t *gTy) depth() int {
+func (t *a18GTy) depth() int {
 	if t == nil {
 		return 0
 	}
 	switch t.kind {
-	case tyList, tySet:
+	case a18TyList, a18TySet:
 		return 1 + t.v.depth()
-	case tyMap:
+	case a18TyMap:
 		a, b := t.k.depth(), t.v.depth()
 		if b > a {
 			a = b
@@ -774,51 +774,51 @@ func (t *gTy) depth() int {
 	return 0
 }
 
-// slot: a place in a program that holds a type the auditor checks (or a typedef body).
-type slot struct {
+// a18Slot: a place in a program that holds a type the auditor checks (or a typedef body).
+type a18Slot struct {
 	decl string // declaration key: "struct:S", "svc:V", "scope:P", "typedef:T", "const:C"
 	what string // field | arg | exc | ret | op | typedef | const
-	ty   **gTy
+	ty   **a18GTy
 }
 
-func (p *gProg) slots(withTypedefs bool) []slot {
-	var out []slot
+func (p *a18GProg) slots(withTypedefs bool) []a18Slot {
+	var out []a18Slot
 	for _, s := range p.structs {
 		for _, f := range s.fields {
-			out = append(out, slot{"struct:" + s.name, "field", &f.ty})
+			out = append(out, a18Slot{"struct:" + s.name, "field", &f.ty})
 		}
 	}
 	for _, s := range p.services {
 		for _, m := range s.methods {
 			k := "method:" + s.name + "." + m.name
 			if m.ret != nil {
-				out = append(out, slot{k, "ret", &m.ret})
+				out = append(out, a18Slot{k, "ret", &m.ret})
 			}
 			for _, f := range m.args {
-				out = append(out, slot{k, "arg", &f.ty})
+				out = append(out, a18Slot{k, "arg", &f.ty})
 			}
 			for _, f := range m.excs {
-				out = append(out, slot{k, "exc", &f.ty})
+				out = append(out, a18Slot{k, "exc", &f.ty})
 			}
 		}
 	}
 	for _, s := range p.scopes {
 		for _, o := range s.ops {
-			out = append(out, slot{"scope:" + s.name, "op", &o.ty})
+			out = append(out, a18Slot{"scope:" + s.name, "op", &o.ty})
 		}
 	}
 	if withTypedefs {
 		for _, t := range p.typedefs {
-			out = append(out, slot{"typedef:" + t.name, "typedef", &t.ty})
+			out = append(out, a18Slot{"typedef:" + t.name, "typedef", &t.ty})
 		}
 		for _, c := range p.consts {
-			out = append(out, slot{"const:" + c.name, "const", &c.ty})
+			out = append(out, a18Slot{"const:" + c.name, "const", &c.ty})
 		}
 	}
 	return out
 }
 
-func sortedKinds(ks []string) string {
+func a18SortedKinds(ks []string) string {
 	if len(ks) == 0 {
 		return "-"
 	}
